@@ -85,7 +85,34 @@ class Rig:
         is an exit); returns the record string."""
         self.evs = []
         self.peak = 0           # in-flight only grows at entries: max over entries and the end
-        k, n = op[0], int(op[1:])
+        k = op[0]
+        if k in 'yz':
+            # composite steps: two things within ONE loop iteration, no running to idle in between
+            a, b = op[1:].split(':')
+            if k == 'y':
+                # holder a leaves; right after its __aexit__ has run - before any task it woke has
+                # run again - the task of waiter b is cancelled (a completion and the processing
+                # timeout of a queued request falling into the same iteration)
+                i, j = int(a), int(b)
+                if i not in self.hold:
+                    self.evs.append('B')
+                else:
+                    self.gate[i].set_result(None)
+                    if j in self.waiting:
+                        self.loop.call_soon(self.task[j].cancel)
+                    else:
+                        self.evs.append('B')
+            else:
+                # set_target(a) and the exit of holder b back to back
+                self.c.set_target(int(a))
+                if int(b) in self.hold:
+                    self.gate[int(b)].set_result(None)
+                else:
+                    self.evs.append('B')
+            self.env.idle()
+            self.peak = max(self.peak, len(self.hold))
+            return fmt_record(self.evs, self.hold, self.waiting, self.c.max_concurrent)
+        n = int(op[1:])
         if k == 'e':
             self.gate[n] = self.loop.create_future()
             self.waiting.append(n)
@@ -133,8 +160,9 @@ class Oracle:
             self.key, self.why = key, why
 
     def op(self, op, evs, holders, waiting, peak, target_seen):
-        k, n = op[0], int(op[1:])
-        if k == 't':
+        k = op[0]
+        n = int(op[1:].split(':')[0])
+        if k in 'tz':
             self.limit = n
             self.maxlimit = max(self.maxlimit, n)
         for e in evs:
@@ -191,7 +219,15 @@ def run_limiter_case(env, init, ops, tail=True):
     nid = [max([int(o[1:]) for o in ops if o[0] == 'e'], default=-1) + 1]
 
     def do(op):
-        is_exit = op[0] in 'xk' and int(op[1:]) in rig.hold
+        if op[0] == 'z':
+            # the new limit is in force before the holder leaves
+            n = int(op[1:].split(':')[0])
+            orc.limit, orc.maxlimit = n, max(orc.maxlimit, n)
+            is_exit = int(op[1:].split(':')[1]) in rig.hold
+        elif op[0] == 'y':
+            is_exit = int(op[1:].split(':')[0]) in rig.hold
+        else:
+            is_exit = op[0] in 'xk' and int(op[1:]) in rig.hold
         if is_exit:
             orc.pre_exit()
         rec = rig.act(op)
@@ -233,6 +269,12 @@ def applicable(state, nid):
         ops.append(f'c{waiting[0]}')
         if len(waiting) > 1:
             ops.append(f'c{waiting[-1]}')
+    if holders and waiting:
+        # composite: a holder leaves and a waiter - the one that is handed the permit, or the last
+        # one in the queue - is cancelled within the same loop iteration
+        ops.append(f'y{holders[0]}:{waiting[0]}')
+        if len(waiting) > 1:
+            ops.append(f'y{holders[0]}:{waiting[-1]}')
     ops += [f't{n}' for n in (0, 1, 2, 3) if n != target]
     return ops
 
@@ -292,8 +334,8 @@ def check_results(ctx, res, results, scope):
 def _has_reduction(ops):
     cur = None
     for o in ops:
-        if o[0] == 't':
-            n = int(o[1:])
+        if o[0] in 'tz':
+            n = int(o[1:].split(':')[0])
             if cur is not None and n < cur:
                 return True
             cur = n
@@ -342,9 +384,14 @@ def random_limiter_case(rng, allow_nonpos):
         elif r < 0.65:
             i = rng.choice(live)
             ops.append(f'x{i}' if rng.random() < 0.75 else f'k{i}')
-        elif r < 0.8:
+        elif r < 0.77:
             i = rng.choice(live)
             ops.append(f'c{i}')
+        elif r < 0.84:
+            # composites (no running to idle in between): exit + cancel of a waiter, target + exit
+            i, j = rng.choice(live), rng.choice(live)
+            lo = -1 if allow_nonpos else 1
+            ops.append(f'y{i}:{j}' if rng.random() < 0.7 else f'z{rng.randint(lo, 5)}:{i}')
         else:
             lo = -1 if allow_nonpos else 1
             ops.append(f't{rng.randint(lo, 5)}')
